@@ -446,6 +446,19 @@ def run_case(inp):
             near = pipe.from_array(img, original_scale=orig, tol=0.02)(orig * 1.01)
             if not np.array_equal(near, img):
                 V("rescale-identity", "from_array within tolerance resampled the image")
+            # the tolerance is RELATIVE (|orig/scale - 1| < tol), whatever the voxel size
+            # (offsets large enough to change the resampled shape: scipy's zoom is the identity otherwise)
+            for o_ in (orig, 0.05 * orig, 4.0 * orig):
+                inside = pipe.from_array(img, original_scale=o_, tol=0.2)(o_ * 1.15)
+                outside = np.asarray(pipe.from_array(img, original_scale=o_, tol=0.01)(o_ * 1.1))
+                if not np.array_equal(inside, img):
+                    V("rescale-tolerance", f"from_array(original_scale={o_}, tol=0.2) resampled at a scale 15 % off")
+                if outside.shape == img.shape and np.array_equal(outside, img):
+                    V("rescale-tolerance", f"from_array(original_scale={o_}, tol=0.01) did not resample at a scale 10 % off")
+                li = pipe.from_arrays([img], original_scale=o_, tol=0.2)(o_ * 1.15)
+                lo = pipe.from_arrays([img], original_scale=o_, tol=0.01)(o_ * 1.1)
+                if not np.array_equal(li[0], img) or (np.asarray(lo[0]).shape == img.shape and np.array_equal(lo[0], img)):
+                    V("rescale-tolerance", f"from_arrays(original_scale={o_}): tolerance is not relative")
             ratio = float(inp["ratio"])
             out = np.asarray(pipe.from_array(img, original_scale=orig)(orig / ratio))
             want_shape = tuple(int(round(s * ratio)) for s in shape)
